@@ -524,6 +524,13 @@ class System:
         if self.bounded:
             self.flood()
 
+        if self.kind == "threads":
+            # an action that fails in a pool thread (whatever the pool does about it happens on the pool's own threads)
+            from bobocep.cep.event import BoboEventComplex, BoboHistory
+            ce = BoboEventComplex(event_id="ce_x", timestamp=1, data=None, phenomenon_name="ph", pattern_name="p1",
+                                  history=BoboHistory({}))
+            self.as_role("engine", lambda: self.handler.handle(ActionRaises.make(), ce), what="handler.handle (failing action)")
+            _time.sleep(0.3)
         # shutdown: engine.run() loop stopped by close(); dist closed, joined; handler closed
         et = self.as_role("engine", self.engine.run, wait=False, what="engine.run")
         _time.sleep(0.05)
@@ -692,6 +699,22 @@ def _child_classes():
     ActionNoop.__qualname__ = "ActionNoop"
     ActionFeed.__qualname__ = "ActionFeed"
     return ActionNoop, ActionFeed
+
+
+class ActionRaises:
+    """made a BoboAction subclass on first use (the library is imported in the child only)"""
+    _cls = None
+
+    @classmethod
+    def make(cls):
+        if cls._cls is None:
+            from bobocep.cep.action.action import BoboAction
+
+            class _ActionRaises(BoboAction):
+                def execute(self, event):
+                    raise RuntimeError("this action fails")
+            cls._cls = _ActionRaises
+        return cls._cls("a_raises")
 
 
 def child_main(argv):
